@@ -1227,11 +1227,31 @@ func (m *Dot11) ChecksumValid() bool {
 }
 
 func (m Dot11) SerializeTo(b gopacket.SerializeBuffer, opts gopacket.SerializeOptions) error {
-	buf, err := b.PrependBytes(24)
+	// The header length depends on the frame type: control frames carry one
+	// or two addresses, data frames between distribution systems carry four.
+	mainType := m.Type.MainType()
+	length := 10
+	switch mainType {
+	case Dot11TypeCtrl:
+		switch m.Type {
+		case Dot11TypeCtrlRTS, Dot11TypeCtrlPowersavePoll, Dot11TypeCtrlCFEnd, Dot11TypeCtrlCFEndAck, Dot11TypeCtrlBlockAck, Dot11TypeCtrlBlockAckReq:
+			length += 6
+		}
+	case Dot11TypeMgmt, Dot11TypeData:
+		length += 14
+	}
+	fourAddresses := mainType == Dot11TypeData && m.Flags.FromDS() && m.Flags.ToDS()
+	if fourAddresses {
+		length += 6
+	}
+
+	buf, err := b.PrependBytes(length)
 
 	if err != nil {
 		return err
 	}
+	// Addresses shorter than 6 bytes are padded with zeros.
+	clear(buf)
 
 	buf[0] = (uint8(m.Type) << 2) | m.Proto
 	buf[1] = uint8(m.Flags)
@@ -1242,10 +1262,9 @@ func (m Dot11) SerializeTo(b gopacket.SerializeBuffer, opts gopacket.SerializeOp
 
 	offset := 10
 
-	switch m.Type.MainType() {
+	switch mainType {
 	case Dot11TypeCtrl:
-		switch m.Type {
-		case Dot11TypeCtrlRTS, Dot11TypeCtrlPowersavePoll, Dot11TypeCtrlCFEnd, Dot11TypeCtrlCFEndAck:
+		if length > offset {
 			copy(buf[offset:offset+6], m.Address2)
 			offset += 6
 		}
@@ -1259,7 +1278,7 @@ func (m Dot11) SerializeTo(b gopacket.SerializeBuffer, opts gopacket.SerializeOp
 		offset += 2
 	}
 
-	if m.Type.MainType() == Dot11TypeData && m.Flags.FromDS() && m.Flags.ToDS() {
+	if fourAddresses {
 		copy(buf[offset:offset+6], m.Address4)
 		offset += 6
 	}
